@@ -2,12 +2,8 @@
 
 package pipeline
 
-// Accessors for the C20 admission-control monitor (build tag `verif`).
+// Accessor for the C20 admission-control monitor (build tag `verif`).
 // Nothing here is used by production code.
-
-// VerifAntispamUnbanIterations is the number of maintenance rounds a ban lasts
-// in a pipeline ("unbanIterations = 4" in pipeline/antispam/README.md).
-const VerifAntispamUnbanIterations = antispamUnbanIterations
 
 // VerifAntispamMaintenance runs one antispam maintenance round, i.e. exactly
 // what the antispammerMaintenance goroutine does on each tick.
